@@ -34,9 +34,7 @@ ivars == <<vars, xexp>>
 Data(S) == [d |-> S.d, t |-> IF S.mt THEN S.age ELSE -1, h |-> IF S.mh THEN S.how ELSE -1, s |-> IF S.ms THEN S.srv ELSE FALSE, ms |-> S.ms]
 
 MechApply(S, o) ==
-    IF o.op = "clear" /\ ~Faithful
-    THEN [ApplyOp(S, o) EXCEPT !.age = conf.age0, !.how = conf.how0, !.srv = FALSE]
-    ELSE ApplyOp(S, o)
+    IF o.op = "clear" THEN ApplyOp(S, [o EXCEPT !.v = IF Faithful THEN 0 ELSE 1]) ELSE ApplyOp(S, o)
 
 Unchanged   == Data(cur.S) = Data(cur.S0) /\ ~NewSess                      \* data_ == data_copy_ && !new_session_
 EarlyReturn == /\ ~IsEmpty(cur.S) /\ Unchanged
